@@ -1,36 +1,62 @@
 """C04 — models: theorems (Props/C04.lean) + correspondence K-C04 (harness/c04.cpp vs
-Model/Models.lean through drv_c04): dense layers with every element-wise activation,
-two-layer concatenations, normalizer/softmax rows."""
+Model/Models.lean, Model/Models2.lean through drv_c04): dense layers with every element-wise activation,
+concatenations of any length, normalizer/softmax rows, Normalizer, Classifier, pooling, resize, convolution,
+RBF, kernel expansion, ensemble, CMAC."""
 import os, re
 from vlib import core
 
 TRUST = ("Lean 4.33 kernel; axioms at most propext/Classical.choice/Quot.sound (audited per run); "
-         "hand-written model Model/Models.lean tied to the C++ by the correspondence harness (differential, generator-bounded); ")
+         "hand-written models Model/Models.lean, Model/Models2.lean tied to the C++ by the correspondence harness (differential, generator-bounded); ")
 MANIFEST = dict(
-  text=("Theorems (Props/C04.lean): for dense layers with any element-wise activation, batch evaluation equals row-wise single "
-        "evaluation for every batch (exact arithmetic), parameterVector/setParameterVector round-trip with the reported length; over "
-        "the reals the weighted parameter and input derivatives of a dense layer are the partial derivatives of the "
-        "coefficient-weighted sum of outputs for every activation (tanh, logistic, fast sigmoid, rectifier away from 0, linear), "
-        "the softmax/normalizer rows satisfy their Jacobian-vector identities, and a generic chain rule: if two models satisfy the "
-        "derivative contract so does their concatenation (what ConcatenatedModel computes). Correspondence: exact comparison on "
-        "dyadic data for linear/rectifier, bit-for-bit outputs and 1e-12-toleranced gradients for tanh/logistic/fast-sigmoid/"
-        "softmax/normalizer, in-harness oracle for batch-vs-single, state-vs-stateless, combined-vs-separate derivative calls, "
-        "parameter round trip."),
-  note=TRUST + "PARTIAL: only LinearModel (all activations), NeuronLayer (element-wise, normalizer, softmax) and ConcatenatedModel chains (any length, optimised or frozen layers) are modelled; "
-       "convolution, pooling, resize, RBF, CMAC, Normalizer model, Classifier, KernelExpansion, Ensemble are not covered yet; "
-       "floating-point rounding is not modelled.",
-  technique="Lean 4 proofs (exact algebra over Rat, HasDerivAt/chain rule over Real) + exact / bit-exact differential correspondence with the C++ models",
+  text=("Theorems (Props/C04.lean, all for arbitrary shapes / batch sizes / parameter values). "
+        "(1) batch = row-wise single evaluation, exact arithmetic: dense layers with every element-wise activation, ConcatenatedModel chains of any "
+        "length and any layer kinds (row i of the output depends on row i of the input only, and equals the evaluation of the one-row batch), "
+        "Normalizer, Classifier<LinearModel> (label of row i = decision on the single evaluation), max pooling, linear gathers (ResizeLayer), RBFLayer, "
+        "KernelExpansion over any kernel function, weighted-mean and voting Ensemble over members that satisfy batch = single, CMAC, Conv2DModel. "
+        "(2) parameterVector/setParameterVector round trip with the reported count: dense layer, chain (optimised and frozen layers), Normalizer, "
+        "KernelExpansion, RBFLayer (over the reals, log/exp encoding of the widths), CMAC, Conv2DModel. "
+        "(3) derivatives over the reals (HasDerivAt of the coefficient-weighted output sum): dense layer weight/offset/input derivatives for every "
+        "activation (rectifier/fast sigmoid away from the kink); softmax and normalizer Jacobian-vector products; "
+        "the executable backward pass Chain.backward of a ConcatenatedModel of any length made of dense, element-wise neuron, softmax and normalizer "
+        "layers, optimised or frozen: its input-coefficient matrix is the input derivative and the entry of its gradient vector at the position of "
+        "W[k][j] / b[k] of any optimised dense layer is the partial derivative w.r.t. that parameter (induction over the chain, "
+        "chain_input/weight/offset_derivative_correct, chain_curve_hasDerivAt), next to the abstract Frechet chain rule concat_chain_rule; "
+        "max-pooling input derivative (no tie in the patch of the pixel); input derivative of any linear gather (ResizeLayer taps); RBFLayer centre "
+        "and log-width gradients at their positions in the gradient vector; CMAC parameter derivative; Conv2DModel (both paddings, every activation away "
+        "from its kink) input derivative and filter/offset gradients at their positions in the gradient vector. "
+        "(4) Classifier: argmax returns an index of a maximal entry and the first such (and is characterised by that), with bias the first maximum of "
+        "z + bias, a single output is thresholded at 0; max pooling returns the maximum of its patch, attained at the pixel the derivative selects; "
+        "the votes of a voting ensemble sum to 1; CMAC tile hashing: with all tile numbers below the tile count every accessed parameter position is inside "
+        "the parameter vector and determines (output, tiling, tile numbers) uniquely. "
+        "Correspondence (harness/c04.cpp on the real classes vs the same Lean definitions, corpus first): exact comparison on dyadic data for "
+        "linear/rectifier layers and chains, Normalizer, Classifier, arg_max, PoolingLayer, KernelExpansion with LinearKernel, CMACMap, Conv2DModel "
+        "(linear/rectifier, both paddings, incl. both derivatives); bit-for-bit outputs for tanh/logistic/fast-sigmoid/softmax/normalizer layers, "
+        "ResizeLayer (spline taps incl. derivative), Ensemble (mean and vote); 1e-12 relative tolerance for gradient fields behind BLAS and for "
+        "RBFLayer / Gaussian KernelExpansion / Conv2DModel(tanh, logistic) outputs. In-harness oracle on the real code: batch rows == single "
+        "evaluation, one-row batches, state vs stateless, combined vs separate derivative calls, derivative results independent of the previous "
+        "content of the result object, parameter round trip and count, central finite differences for every advertised derivative."),
+  note=TRUST + "PARTIAL. Proved: the items (1)-(4) above about the executable models. Only exercised by the correspondence (no theorem): "
+       "the im2mat/gemm/reorder implementation of Conv2DModel (the model is the defining sum over filter taps), the spline taps of ResizeLayer (the derivative "
+       "theorem holds for arbitrary taps), voting ensembles' batch = single, KernelExpansion with the Gaussian kernel (theorem is for an arbitrary kernel "
+       "function), the floating-point tile numbers of CMAC (the theorems take the cast `toNat` as an arbitrary function). Not modelled: sparse inputs, DropoutLayer (random), "
+       "OpenCL back ends, Padding::RepeatBorder, floating-point rounding. Findings on the real code (modelled as repaired, inputs in corpus/C04, "
+       "findings_proposed/C04.md): F-C04-1 Classifier single evaluation ignores the bias, F-C04-2 PoolingLayer input derivative accumulates into "
+       "the result object (F-C04-5: parameter-less NeuronLayer / ResizeLayer do not resize the gradient to 0), F-C04-3 voting Ensemble of single-output classifiers writes out of bounds, F-C04-4 Conv2DModel input derivative wrong "
+       "(backprop filter layout; even filter sizes with zero padding).",
+  technique="Lean 4 proofs (exact algebra over Rat, HasDerivAt/chain rule over Real, induction over the layer chain) + exact / bit-exact differential correspondence with the C++ models",
   design="§6 C04")
 FINISH = dict(level="proof",
               rule="cases = (layer kind, activation(s), shapes, dyadic parameters/inputs/coefficients); distinct = distinct op text; "
                    "non-trivial = batch size >= 2 and at least 2 outputs")
 LAKE_TARGETS = ["SharkVerif.Props.C04", "drv_c04"]
+# ResizeLayer evaluates its images in an OpenMP loop: two threads, no spinning (the machine is shared; schedules are C20's topic)
+ENV = {"OMP_NUM_THREADS": "2", "OMP_WAIT_POLICY": "PASSIVE"}
 ACTS = ["linear", "rectifier", "tanh", "logistic", "fastsigmoid"]
 EXACT_ACTS = ["linear", "rectifier"]
 
 
 def build(ctx):
-    return ctx.harness("c04", ["c04.cpp"])
+    return ctx.harness("c04", ["c04.cpp"], repo_sources=["src/Models/RBFLayer.cpp", "src/Models/CMAC.cpp", "src/Core/Random.cpp"])
 
 
 def dy(r, lo, hi, fracbits):
@@ -83,6 +109,113 @@ def gen_rowact(r):
     return f"rowact {kind} {n} {B} | {vec(r, n * B, lo, 4, 2)} | {vec(r, n * B)}"
 
 
+# ---------------------------------------------------------------- further model types
+def gen_normalizer(r):
+    hb = r.below(2); n = r.range(1, 5); B = r.choice([1, 2, 3, 5])
+    return f"normalizer {hb} {n} {B} | {vec(r, n + (n if hb else 0))} | {vec(r, B * n)}"
+
+
+def gen_classifier(r, probe):
+    """Classifier<LinearModel>: arg-max with ties (small integers), single thresholded output, optional bias"""
+    nIn = r.range(1, 3); nOut = r.range(1, 4); hb = r.below(2); hasBias = r.below(2); B = r.choice([1, 2, 3, 4])
+    ints = r.chance(1, 2)
+    fb = 0 if ints else 2
+    np_ = nOut * nIn + (nOut if hb else 0)
+    bias = vec(r, nOut, -2, 2, fb) if hasBias else ""
+    return f"classifier {nIn} {nOut} {hb} {hasBias} {B} {1 if probe else 0} | {vec(r, np_, -2, 2, fb)} | {bias} | {vec(r, B * nIn, -2, 2, fb)}"
+
+
+def gen_argmax(r):
+    n = r.range(1, 7)
+    return f"argmax {n} | {vec(r, n, -1, 2, r.below(2))}"
+
+
+def _perm(r, n):
+    a = list(range(n))
+    for i in range(n - 1, 0, -1):
+        j = r.below(i + 1); a[i], a[j] = a[j], a[i]
+    return a
+
+
+def gen_pool(r, probe):
+    h = r.range(1, 5); w = r.range(1, 5); d = r.range(1, 2); ph = r.range(1, min(h, 3)); pw = r.range(1, min(w, 3)); B = r.choice([1, 2, 3])
+    nIn = h * w * d; nOut = (h // ph) * (w // pw) * d
+    distinct = r.chance(1, 2)
+    if distinct:      # no ties anywhere: the finite-difference oracle applies
+        xs = " ".join(" ".join(f"{v - nIn // 2}/1" for v in _perm(r, nIn)) for _ in range(B))
+    else:             # many ties: first maximum wins
+        xs = vec(r, B * nIn, -1, 1, 0)
+    return f"pool {h} {w} {d} {ph} {pw} {B} {1 if distinct else 0} {1 if probe else 0} | {xs} | {vec(r, B * nOut)}"
+
+
+def gen_resize(r):
+    h = r.range(1, 4); w = r.range(1, 4); d = r.range(1, 2); oh = r.range(1, 5); ow = r.range(1, 5); B = r.choice([1, 2, 3])
+    return f"resize {h} {w} {d} {oh} {ow} {B} | {vec(r, B * h * w * d)} | {vec(r, B * oh * ow * d)}"
+
+
+def gen_rbf(r):
+    nIn = r.range(1, 3); nOut = r.range(1, 3); tc = r.below(2); tw = r.below(2); B = r.choice([1, 2, 3, 4])
+    return (f"rbf {nIn} {nOut} {tc} {tw} {B} | {vec(r, nIn * nOut, -2, 2, 2)} | {vec(r, nOut, -1, 1, 2)} | "
+            f"{vec(r, B * nIn, -2, 2, 2)} | {vec(r, B * nOut)}")
+
+
+def gen_kexp(r, exact):
+    nIn = r.range(1, 3); nB = r.range(1, 5); nOut = r.range(1, 3); hb = r.below(2); B = r.choice([1, 2, 3, 4])
+    bb = r.choice([0, 1, 2, nB])
+    kern = "linear 0" if exact else f"gauss {dy(r, 1, 8, 3)}"
+    return (f"kexp {kern} {nIn} {nB} {nOut} {hb} {bb} {B} | {vec(r, nB * nIn, -2, 2, 1)} | "
+            f"{vec(r, nB * nOut + (nOut if hb else 0), -2, 2, 1)} | {vec(r, B * nIn, -2, 2, 1)}")
+
+
+def gen_ensemble(r, kind, single_output_ok):
+    M = r.range(1, 4); nIn = r.range(1, 3); hb = r.below(2); B = r.choice([1, 2, 3])
+    nOut = r.range(1, 3) if (kind == "mean" or single_output_ok) else r.range(2, 4)
+    np_ = nOut * nIn + (nOut if hb else 0)
+    ws = " ".join(dy(r, 1, 4, 2) for _ in range(M))
+    return f"ensemble {kind} {M} {nIn} {nOut} {hb} {B} | {ws} | {vec(r, M * np_, -2, 2, 1)} | {vec(r, B * nIn, -2, 2, 1)}"
+
+
+def gen_conv(r, exact, probe):
+    """Conv2DModel: tiny images, 1-2 channels, 1-2 filters, both paddings"""
+    act = r.choice(EXACT_ACTS if exact else ["tanh", "logistic"])
+    h = r.range(1, 4); w = r.range(1, 4); c = r.range(1, 2); nf = r.range(1, 2); fh = r.range(1, min(h, 3)); fw = r.range(1, min(w, 3))
+    valid = r.below(2); B = r.choice([1, 2, 3])
+    oh = h - fh + 1 + (0 if valid else fh - 1); ow = w - fw + 1 + (0 if valid else fw - 1)
+    npar = nf * fh * fw * c + nf
+    return (f"conv {act} {valid} {h} {w} {c} {nf} {fh} {fw} {B} {1 if probe else 0} | {vec(r, npar, -2, 2, 1)} | {vec(r, B * h * w * c, -2, 2, 1)} | "
+            f"{vec(r, B * oh * ow * nf, -2, 2, 1)}")
+
+
+def gen_cmac(r):
+    nIn = r.range(1, 2); nOut = r.range(1, 2); tilings = r.choice([1, 2, 4]); tiles = r.choice([2, 3, 5]); B = r.choice([1, 2, 3])
+    lo, up = r.choice([(0, 1), (-1, 1), (0, 2), (-2, 2)])
+    npar = tiles ** nIn * tilings * nOut
+    xs = " ".join(dy(r, lo, up, 3) for _ in range(B * nIn))
+    return f"cmac {nIn} {nOut} {tilings} {tiles} {B} | {lo} {up} | {vec(r, npar, -2, 2, 1)} | {xs} | {vec(r, B * nOut)}"
+
+
+# findings of the real code that are modelled *as repaired*; corpus/C04/<file> holds the minimal input
+FINDINGS = {
+    "F-C04-1": "classifier-single-eval-ignores-bias",
+    "F-C04-2": "pooling-derivative-accumulates",
+    "F-C04-3": "ensemble-vote-single-output-overflow",
+    "F-C04-4": "conv2d-input-derivative-filter-layout",
+    "F-C04-5": "parameterless-layer-gradient-not-resized",
+}
+
+
+def load_corpus():
+    d = os.path.join(core.VERIF, "corpus", "C04")
+    out = []
+    for fn in sorted(os.listdir(d)) if os.path.isdir(d) else []:
+        if not fn.endswith(".txt"): continue
+        lines = [l.rstrip("\n") for l in open(os.path.join(d, fn))]
+        fid = next((l.split(":", 1)[1].strip() for l in lines if l.startswith("# finding:")), None)
+        ops = [l for l in lines if l.strip() and not l.startswith("#")]
+        out.append((fn, fid, ops))
+    return out
+
+
 def _parse_fields(line):
     out = {}
     for tok in re.finditer(r"(\w+)=((?:[^ =]| (?![A-Z][A-Z0-9]*=))*)", line):
@@ -97,13 +230,17 @@ def _num(tok):
     return int(m) * 2.0 ** int(e)
 
 
+TOL_FIELDS = ("GP", "GX", "D", "GP2", "GX2", "TPV", "TS", "TE")
+
+
 def cmp_tol(a, b):
-    """equal up to 1e-12 relative in the gradient fields GP/GX/D; everything else must match exactly"""
+    """equal up to 1e-12 relative in the gradient fields GP/GX/D and the fields T* (values behind exp/log and BLAS sums);
+    everything else must match exactly"""
     fa, fb = _parse_fields(a), _parse_fields(b)
     if fa.keys() != fb.keys(): return False
     for k in fa:
         if fa[k] == fb[k]: continue
-        if k not in ("GP", "GX", "D", "GP2", "GX2"): return False
+        if k not in TOL_FIELDS: return False
         xa = [_num(t) for row in fa[k].split(";") for t in row.split(",") if t.strip()]
         xb = [_num(t) for row in fb[k].split(";") for t in row.split(",") if t.strip()]
         if len(xa) != len(xb): return False
@@ -111,19 +248,49 @@ def cmp_tol(a, b):
     return True
 
 
+def _finding_key(ops, res):
+    """name the known defects of the real code (stable keys, see findings_proposed/C04.md)"""
+    op = next((o for o in ops if not o.startswith(("mode", "probe"))), "")
+    hd = op.split("|")[0].split()
+    tags = " ".join(res.oracle)
+    if hd[:1] == ["classifier"] and len(hd) == 7 and hd[4] == "1" and "batch-row-differs-from-single" in tags:
+        return "F-C04-1"
+    if hd[:1] == ["pool"] and "input-derivative-depends-on-previous-buffer-content" in tags:
+        return "F-C04-2"
+    if hd[:2] == ["ensemble", "vote"] and len(hd) == 7 and hd[4] == "1" and res.crash:
+        return "F-C04-3"
+    if hd[:1] in (["rowact"], ["resize"]) and "gradient-not-resized" in tags and "probe gradient-size 0" not in ops:
+        return "F-C04-5"
+    if hd[:1] == ["conv"] and len(hd) == 11 and hd[10] == "1" and "input-derivative-differs-from-finite-differences" in tags:
+        return "F-C04-4"
+    return None
+
+
+_TWO_TOKEN_KINDS = ("dense", "concat", "rowact", "ensemble", "kexp", "conv")
+
+
+def _op_kind(o):
+    t = o.split()
+    return " ".join(t[:2]) if t[0] in _TWO_TOKEN_KINDS else t[0]
+
+
 def classify(ops, res):
-    kinds = sorted({(o.split()[0] if o.startswith("chain") else " ".join(o.split()[:2])) for o in ops if not o.startswith("mode")})
+    """key = <failure class>:<op kind>[:<oracle tag>]; failures are grouped (and reported once) per class and op kind"""
+    kinds = "+".join(sorted({_op_kind(o) for o in ops if not o.startswith(("mode", "probe"))}))
+    fid = _finding_key(ops, res)
+    if fid:
+        return f"{fid}:{FINDINGS[fid]}", f"{fid} ({FINDINGS[fid]}) on {ops}"
     if res.crash:
-        return f"crash:{'+'.join(kinds)}", f"harness aborted on {ops}"
+        return f"crash:{kinds}", f"harness aborted on {ops}"
     if res.oracle:
         m = re.search(r"!oracle (\S+)", res.oracle[0])
-        return f"oracle:{m.group(1)}:{'+'.join(kinds)}", f"property oracle failed ({m.group(1)}) on {ops}"
-    return f"mismatch:{'+'.join(kinds)}", f"model and implementation disagree at line {res.diff_at} on {ops}"
+        return f"oracle:{kinds}:{m.group(1)}", f"property oracle failed ({m.group(1)}) on {ops}"
+    return f"mismatch:{kinds}", f"model and implementation disagree at line {res.diff_at} on {ops}"
 
 
 def run(ctx):
     ctx.trusted += ["correspondence harness harness/c04.cpp + generator checks/c04.py",
-                    "hand-written model Model/Models.lean (LinearModel.h, NeuronLayers.h, ConcatenatedModel.h are modelled, not translated)",
+                    "hand-written models Model/Models.lean, Model/Models2.lean (the model headers / sources are modelled, not translated)",
                     "Float instance = IEEE binary64 with the platform libm (same tanh/exp as the C++)"]
     ctx.assumptions += ["exact arithmetic in the theorems; rounding enters only through the correspondence",
                         "gradient fields in float mode are compared with relative tolerance 1e-12 (BLAS/FMA summation order)"]
@@ -133,24 +300,66 @@ def run(ctx):
     exe = build(ctx); drv = ctx.driver("drv_c04")
     if not exe or not drv:
         return
+    # corpus first; a corpus file tagged `# finding: <id>` probes a defect of the real code that the model has *as
+    # repaired*: if it still fails the finding is reported (KNOWN-FINDING if listed) and the generated stream keeps
+    # the rest of the property checked around it (probe flags off / trigger avoided); on a repaired tree everything is on
+    present = set()
+    corpus = load_corpus()
+    ctx.cov["corpus_cases"] = len(corpus)
+    for fn, fid, ops in corpus:
+        n = core.correspond(ctx, f"K-C04[corpus:{fn}]", [ops], [exe], [drv], classify, cmp=cmp_tol, env=ENV, max_report=8)
+        if n and fid:
+            present.add(fid)
+    ctx.cov["findings_present"] = sorted(present)
     r = ctx.rng.fork("c04")
-    per = 60 if ctx.quick else 800
+    per = 200 if ctx.quick else 8000
+    half = per // 2
+    p1, p2, p3, p4 = ("F-C04-1" not in present, "F-C04-2" not in present, "F-C04-3" not in present, "F-C04-4" not in present)
+    gs = "probe gradient-size " + ("0" if "F-C04-5" in present else "1")     # parameter-less layers evaluated on their own
     exact_cases = [["mode rat", gen_dense(r, True)] for _ in range(per)] + [["mode rat", gen_concat(r, True)] for _ in range(per)] + \
-                  [["mode rat", gen_chain(r, True)] for _ in range(per)]
+                  [["mode rat", gen_chain(r, True)] for _ in range(per)] + \
+                  [["mode rat", gen_normalizer(r)] for _ in range(half)] + [["mode rat", gen_classifier(r, p1)] for _ in range(per)] + \
+                  [["mode rat", gen_argmax(r)] for _ in range(half)] + [["mode rat", gen_pool(r, p2)] for _ in range(per)] + \
+                  [["mode rat", gen_kexp(r, True)] for _ in range(half)] + [["mode rat", gen_cmac(r)] for _ in range(half)] + \
+                  [["mode rat", gen_conv(r, True, p4)] for _ in range(half)]
     float_cases = [["mode float", gen_dense(r, False)] for _ in range(per)] + [["mode float", gen_concat(r, False)] for _ in range(per)] + \
-                  [["mode float", gen_rowact(r)] for _ in range(per)] + [["mode float", gen_chain(r, False)] for _ in range(2 * per)]
+                  [["mode float", gs, gen_rowact(r), GS_ON] for _ in range(per)] + [["mode float", gen_chain(r, False)] for _ in range(2 * per)] + \
+                  [["mode float", gs, gen_resize(r), GS_ON] for _ in range(half)] + [["mode float", gen_rbf(r)] for _ in range(per)] + \
+                  [["mode float", gen_kexp(r, False)] for _ in range(half)] + \
+                  [["mode float", gen_ensemble(r, "mean", True)] for _ in range(half)] + [["mode float", gen_ensemble(r, "vote", p3)] for _ in range(half)] + \
+                  [["mode float", gen_conv(r, False, p4)] for _ in range(half)]
     for c in exact_cases + float_cases:
-        ctx.hist("op_kinds", c[0].split()[1] + ":" + " ".join(c[1].split()[:2]))
+        ctx.hist("op_kinds", c[0].split()[1] + ":" + " ".join(_main_op(c).split()[:2]))
     ctx.cov["evaluations"] = len(exact_cases) + len(float_cases)
-    ctx.cov["distinct_nontrivial"] = len({c[1] for c in exact_cases + float_cases if c[1].split("|")[0].split()[-1] not in ("1",)})
+    ctx.cov["distinct_nontrivial"] = len({_main_op(c) for c in exact_cases + float_cases if _batch_size(_main_op(c)) >= 2})
     ctx.sample({"ops": exact_cases[0]}); ctx.sample({"ops": float_cases[-1]})
-    core.correspond(ctx, "K-C04[exact]", exact_cases, [exe], [drv], classify)
-    core.correspond(ctx, "K-C04[float]", float_cases, [exe], [drv], classify, cmp=cmp_tol)
+    core.correspond(ctx, "K-C04[exact]", exact_cases, [exe], [drv], classify, env=ENV, max_report=8)
+    core.correspond(ctx, "K-C04[float]", float_cases, [exe], [drv], classify, cmp=cmp_tol, env=ENV, max_report=8)
+
+
+GS_ON = "probe gradient-size 1"
+
+
+def _main_op(case):
+    return next(o for o in case if not o.startswith(("mode", "probe")))
+
+
+_B_POS = {"dense": 5, "concat": 8, "chain": 1, "rowact": 3, "normalizer": 3, "classifier": 5, "pool": 6, "resize": 6, "rbf": 5,
+          "kexp": 8, "ensemble": 6, "cmac": 5, "conv": 9}
+
+
+def _batch_size(op):
+    hd = op.split("|")[0].split()
+    pos = _B_POS.get(hd[0])
+    try:
+        return int(hd[pos]) if pos is not None else 2
+    except (IndexError, ValueError):
+        return 2
 
 
 def replay(ctx, rep):
     exe = build(ctx); drv = ctx.driver("drv_c04")
-    res = core.run_case(ctx, [exe], [drv], rep["ops"], cmp=cmp_tol)
+    res = core.run_case(ctx, [exe], [drv], rep["ops"], cmp=cmp_tol, env=ENV)
     print("\n".join(f"impl : {a}\nmodel: {b}" for a, b in zip(res.impl, res.model)))
     print("OK" if res.ok else "FAILS")
     return 0 if res.ok else 1
